@@ -239,6 +239,22 @@ fn main() {
             println!("RESULT json-visit {text} -> {got:?} expected {want:e} same={same}");
             if !same { std::process::exit(3); }
         }
+        // ---- C08 enumerator: filters (incl. literals of awkward magnitude and strings with escapes) printed then parsed again
+        "enum:filter-print-parse" => {
+            let texts = ["a", "not a", "a and b", "a or b and c", "(a or b) and c", "a->b->c", "a->b and c", "a == 1", "a != -1.5", "a < 10000000000000000000",
+                "a >= 1e300", "a == 1e-7", "a > 9223372036854775808kWh", "a == \"s\"", "a == \"q\\\"t\\\\b$x\"", "a == @r", "a == ^s", "a == `u`", "a == true",
+                "a == 2021-06-01", "a == 12:30:00", "a *== @r", "a <= 5m", "x and (y or (z and not w))"];
+            for t in texts {
+                let f = match Filter::try_from(t) { Ok(f) => f, Err(e) => { println!("RESULT enum:filter-print-parse {t:?} does not parse: {e}"); std::process::exit(3); } };
+                let printed = f.to_string();
+                let again = Filter::try_from(printed.as_str());
+                if !matches!(&again, Ok(g) if *g == f) {
+                    println!("RESULT enum:filter-print-parse {t:?} prints as {printed:?}, which parses to {:?}", again.map(|g| g.to_string()));
+                    std::process::exit(3);
+                }
+            }
+            println!("RESULT enum:filter-print-parse {} filters survive print-then-parse", texts.len());
+        }
         // ---- C06: RFC 3339 text -> DateTime keeps the instant (or is rejected); exit 3 = different instant
         "rfc3339" => {
             let text = &args[2];
